@@ -213,7 +213,7 @@ CORPUS = [
     "eval 5 0,1 -1",
     "frobbase 618970019642690137449562111 1,0,1,1",
     "ddfz 618970019642690137449562111 3,0,1,1",
-    # gf_edf_shoup recursed without bound before a42bcec (wrong _gf_trace_map)
+    # gf_edf_shoup recursed without bound before a432cd9 (trace taken from the wrong _gf_trace_map)
     "shoup 1009 1 x 927,594,946,36,852,857,1",
     "edfs 1009 1 x 927,594,946,36,852,857,1 3",
     # boundaries of the division loops: deg f = deg g, deg f = deg g + 1, divisor of degree 1, constant divisor
